@@ -14,7 +14,11 @@ extra = {'C13-B': ['C13', 'C16'], 'C05-B': ['C17'], 'C17-B': ['C17'], 'C02-A': [
          'C01-H': ['C01', 'C03', 'C05'], 'C10-H': ['C10', 'C05'], 'C15-H': ['C15', 'C02'], 'C14-H': ['C14', 'C03'],
          'C08-H': ['C08', 'C02'], 'C18-G': ['C18', 'C15'], 'C04-H': ['C04', 'C13'],
          # round 6: C01-J is the mechanism of C04-G (a reaped worker kept on the books), C03-J never finishes a stop
-         'C01-J': ['C01', 'C04'], 'C03-J': ['C03', 'C05']}
+         'C01-J': ['C01', 'C04'], 'C03-J': ['C03', 'C05'],
+         # round 8: a refused set that changes the target is C11's (and C10's) business -- C01 reads the target back from
+         # the daemon; a quit that is not serialized is C10's and leaves workers behind for C08; a redirector handler that
+         # keeps writing to a replaced stream is C17's
+         'C01-L': ['C01', 'C11', 'C10'], 'C02-L': ['C02', 'C10', 'C08'], 'C20-L': ['C20', 'C17']}
 rows = []
 import concurrent.futures as cf
 
